@@ -7,7 +7,6 @@
 package c14
 
 import (
-	"sync/atomic"
 	"bytes"
 	"fmt"
 	"io"
@@ -16,6 +15,7 @@ import (
 	"runtime"
 	"strings"
 	"sync"
+	"sync/atomic"
 	"testing"
 	"time"
 
@@ -31,8 +31,8 @@ import (
 func TestMain(m *testing.M) {
 	log.SetOutput(io.Discard) // the library logs every line it cannot parse
 	harness.Property("C14",
-		"cases: serial (in-memory line, generated read segmentation incl. 1-byte reads) or TCP (loopback, ports p/p+1); dial, dial with bandwidth, failed dial or listen/accept; steps = ARQ frames TNC->host (1..65532 bytes) with IDF/FEC/ERR frames in between, BUFFER/NEWSTATE/PTT/BUSY/PENDING/STATUS events, host writes of 1..70000 bytes with 0..3 CRCFAULTs each, reads with a generated buffer schedule, Flush with BUFFER 0 sent at a later step, then Close (DISCONNECT answered immediately or at a later step) or a remote disconnect; plus a malformed-input family (no-crash oracle). Non-trivial = conforming case with at least one data frame each way and a CRCFAULT, a reader buffer smaller than a frame, or a write > 65535; distinct by hash of the whole case.",
-		"the simulator orders events as a modem does: BUFFER 0 is sent strictly after the write's own BUFFER n notification has been consumed (Write returned), ARQ data only after Dial/Accept returned, an inbound connect only after Accept is pending; in TCP mode the session is not ended while ARQ data is unread (control and data sockets are not ordered relative to each other)",
+		"cases: serial (in-memory line, generated read segmentation incl. 1-byte reads) or TCP (loopback, ports p/p+1); dial, dial with bandwidth, failed dial or listen/accept; steps = ARQ frames TNC->host (1..65532 bytes) with IDF/FEC/ERR frames in between, BUFFER/NEWSTATE/PTT/BUSY/PENDING/STATUS events, host writes of 1..70000 bytes with 0..3 CRCFAULTs each, (serial) write pairs - two Writes back to back while the TNC sends an unsolicited BUFFER progress report at the moment the first frame is half way down a slow port (the port takes the second half of the caller's buffer only at the end of the write call); both frames must arrive intact and in order -, reads with a generated buffer schedule, Flush with BUFFER 0 sent at a later step, then Close (DISCONNECT answered immediately or at a later step) or a remote disconnect; plus a malformed-input family (no-crash oracle). Non-trivial = conforming case with at least one data frame each way and a CRCFAULT, a reader buffer smaller than a frame, or a write > 65535; distinct by hash of the whole case.",
+		"outside the write-pair step the simulator orders events as a modem does: BUFFER 0 is sent strictly after the write's own BUFFER n notification has been consumed (Write returned), ARQ data only after Dial/Accept returned, an inbound connect only after Accept is pending; in TCP mode the session is not ended while ARQ data is unread (control and data sockets are not ordered relative to each other)",
 		"malformed family: oracle is only 'process does not die and every call returns'; the link is dropped (EOF) after the malformed bytes, because a TNC that swallowed a reply can block the library for ever and the property has no bounded-time clause",
 		"loopback TCP segmentation is requested (TCP_NODELAY, separate writes), not guaranteed",
 	)
@@ -48,6 +48,9 @@ type Step struct {
 	Text string `json:"text,omitempty"` // event: the control line
 	// write (serial): another goroutine of the application issues commands (VERSION) while the Write runs
 	Concurrent bool `json:"concurrent,omitempty"`
+	// write-pair (serial): two Writes back to back (N and N2 bytes) while the TNC sends a progress report for
+	// earlier data at the moment the first frame is half way down a slow port
+	N2 int `json:"n2,omitempty"`
 }
 
 type Case struct {
@@ -159,6 +162,7 @@ type stats struct {
 	opened, connected       bool
 	arqFrames, otherFrames  int
 	writes, faultedWrites   int
+	pairs                   int // write-pair steps
 	bigWrite, smallBuf      bool
 	failedWrite, flushes    int
 	events, ptt             int
@@ -642,6 +646,68 @@ func (r *runner) write(st Step) {
 	r.lastN = frames[len(frames)-1].Seq
 }
 
+// writePair: an unsolicited BUFFER report (progress of data queued earlier) reaches the host while the frame of the
+// first Write is still being clocked out of the serial port; the application writes again at once. Whatever the
+// Writes make of that report, the TNC must receive both frames intact and in order.
+func (r *runner) writePair(st Step) {
+	r.finishFlush()
+	if r.sig != "" {
+		return
+	}
+	r.call("Version", func() { r.tnc.Version() })
+	if r.sig != "" {
+		return
+	}
+	ps := [][]byte{content(st.Seed, min(st.N, 60000)), content(st.Seed+1, min(st.N2, 60000))}
+	r.writeIdx += 2
+	r.st.writes += 2
+	r.st.pairs++
+	r.s.ExpectData(-1)
+	before := len(r.s.Records())
+	r.s.ArmStaleBuffer()
+	var ns [2]int
+	var errs [2]error
+	for i := range ps {
+		r.call("Write", func() { ns[i], errs[i] = r.conn.Write(ps[i]) })
+		if r.sig != "" {
+			return
+		}
+	}
+	var frames []sim.Record
+	for deadline := time.Now().Add(20 * time.Second); ; time.Sleep(200 * time.Microsecond) {
+		frames = hostData(r.s.Records(), before)
+		if len(frames) >= 2 || r.s.Broken() != "" || time.Now().After(deadline) {
+			break
+		}
+	}
+	r.checkHostFrames()
+	if r.sig != "" {
+		return
+	}
+	if len(frames) != 2 {
+		r.fail("write-frame-count", "two Writes (%d and %d bytes) while a BUFFER progress report arrived during the first: the TNC received %d data frame(s), want 2; Writes returned (%d, %v) and (%d, %v)", len(ps[0]), len(ps[1]), len(frames), ns[0], errs[0], ns[1], errs[1])
+		return
+	}
+	for i, f := range frames {
+		if !bytes.Equal(f.Data, ps[i]) {
+			r.fail("write-payload", "two Writes while a BUFFER progress report arrived during the first: frame %d carries %d bytes %x…, the Write was %d bytes %x…", i, len(f.Data), head(f.Data), len(ps[i]), head(ps[i]))
+			return
+		}
+		if ref := sim.HostDataFrame(false, ps[i]); !bytes.Equal(f.Raw, ref) {
+			r.fail("write-frame", "two Writes while a BUFFER progress report arrived during the first: frame %d on the wire %x… differs from prefix+BE length+data+CRC %x…", i, head(f.Raw), head(ref))
+			return
+		}
+		if errs[i] != nil || ns[i] != len(ps[i]) {
+			r.fail("write-error", "Write %d of %d bytes (frame accepted by the TNC) returned (%d, %v)", i, len(ps[i]), ns[i], errs[i])
+			return
+		}
+		r.st.bytesOut += len(ps[i])
+	}
+	r.lastN = frames[1].Seq
+	// the replies to both frames are on their way; the command round trip of the next step collects them
+	r.call("Version", func() { r.tnc.Version() })
+}
+
 func (r *runner) startFlush() {
 	if r.flushDone != nil || r.sig != "" {
 		return
@@ -734,6 +800,8 @@ func (r *runner) step(st Step) {
 		}
 	case "write":
 		r.write(st)
+	case "write-pair":
+		r.writePair(st)
 	case "read":
 		r.readSome(max(1, st.N))
 	case "flush-start":
@@ -1108,6 +1176,7 @@ func account(c Case, st stats, sig string) {
 	lab(st.maxFrame >= 65529, "has:arq-frame>=65529")
 	lab(st.writes > 0, "has:write")
 	lab(st.faultedWrites > 0, "has:crcfault-retransmit")
+	lab(st.pairs > 0, "has:write-pair-with-progress-report-during-slow-port-write")
 	lab(st.failedWrite > 0, "has:crcfault-x3")
 	lab(st.bigWrite, "has:write>65535")
 	lab(st.smallBuf, "has:reader-buffer<frame")
